@@ -38,9 +38,32 @@ def parseInt (s : String) : Option Int :=
 def entitled (d : DState) (r : Req) : Bool :=
   r.powOk && (match r.norm with | some h => d.kv.bound h == some r.caller | none => false)
 
-/-- spec: "never kept past its expiry minus the safety skew" (1 s is the smallest TTL the cache is given) -/
-def ttlAllowed (dNs ttl : Int) : Bool :=
-  decide (0 < ttl) && decide (ttl ≤ max (dNs - Gen.C30.keylessExpirySkew) second)
+-- spec "never kept past its expiry minus the safety skew": `ttlAllowed` (Model.lean; proved for the model
+-- in Props: `ttl_allowed`, `loader_run_allowed`)
+
+/-- `-` or an integer -/
+def parseOptInt (s : String) : Option (Option Int) :=
+  if s = "-" then some none else (parseInt s).map some
+
+/-- loader line: the harness reads the clock before the call (`d0 = NotAfter − t0`), inside the certificate
+provider right before it returns (`dp`, after the scripted latency) and after the loader returned (`d1`).
+The cache entry's lifetime starts after the provider returned, so by the statement the TTL must be allowed
+at `dp` (SPEC, independent of the model); the model (`loaderRunTTL`: clock read after the provider
+answered) puts `NotAfter − now` in `[d1, dp]` (DIFF). -/
+def loaderVerdict (p : Provider) (l0 lp l1 : Option Int) (t : Int) (res : String) : Verdict :=
+  let wantRes := if p = .cert then "cert" else "cachederr"
+  let okT : Bool := match p, lp, l1 with
+    | .cert, some ap, some a1 => ttlReachable a1 ap t
+    | .cert, _, _ => t == computeTTL none
+    | _, _, _ => t == Gen.C30.keylessFailedTTL
+  let pastAt (l : Option Int) : Bool :=
+    match l with | some dNs => decide (p = .cert) && !ttlAllowed dNs t | none => false
+  if pastAt l0 then
+    .spec "loader TTL keeps the certificate past NotAfter - skew"
+  else if pastAt lp then
+    .spec "loader TTL keeps the certificate past NotAfter - skew: lifetime counted from before the certificate provider returned (slow provider)"
+  else if t ≤ 0 then .spec "loader TTL not positive (the cache would keep the entry forever)"
+  else if !okT ∨ res ≠ wantRes then .diff s!"ttl not reachable in bracket; {wantRes}" else .ok
 
 def dstep (d : DState) (toks : List String) (rhs : String) : DState × Verdict :=
   match toks with
@@ -90,23 +113,24 @@ def dstep (d : DState) (toks : List String) (rhs : String) : DState × Verdict :
       else if t ≤ 0 ∨ t > Gen.C30.keylessPositiveTTL then (d, .spec "cache TTL outside (0, 5 min]")
       else if m ≠ t then (d, .diff (toString m)) else (d, .ok)
     | _, _ => (d, .bad "ttl args")
-  | ["loader", prov, d0, d1] =>
+  | ["loader", prov, d0, dp, d1, _lat] =>
     match parseProv prov, rhs.splitOn " " with
     | some p, [t, res] =>
-      match parseInt t, (if d0 = "-" then some none else (parseInt d0).map some),
-            (if d1 = "-" then some none else (parseInt d1).map some) with
-      | some t, some l0, some l1 =>
-        -- the loader reads the clock between the two readings of the harness: NotAfter-now ∈ [d1, d0]
-        let wantRes := if p = .cert then "cert" else "cachederr"
-        let okT : Bool := match p, l0, l1 with
-          | .cert, some a0, some a1 => ttlReachable a1 a0 t
-          | .cert, _, _ => t == computeTTL none
-          | _, _, _ => t == Gen.C30.keylessFailedTTL
-        let past : Bool := match l0 with | some dNs => decide (p = .cert) && !ttlAllowed dNs t | none => false
-        if past then
-          (d, .spec "loader TTL keeps the certificate past NotAfter - skew")
-        else if t ≤ 0 then (d, .spec "loader TTL not positive (the cache would keep the entry forever)")
-        else if !okT ∨ res ≠ wantRes then (d, .diff s!"ttl not reachable in bracket; {wantRes}") else (d, .ok)
+      match parseInt t, parseOptInt d0, parseOptInt dp, parseOptInt d1 with
+      | some t, some l0, some lp, some l1 =>
+        if (match l0, lp, l1 with
+            | some a0, some ap, some a1 => decide (a1 ≤ ap) && decide (ap ≤ a0)
+            | none, none, none => true
+            | _, _, _ => false : Bool) then (d, loaderVerdict p l0 lp l1 t res)
+        else (d, .bad "loader clock readings out of order")
+      | _, _, _, _ => (d, .bad "loader numbers")
+    | _, _ => (d, .bad "loader args")
+  | ["loader", prov, d0, d1] =>
+    -- recorded lines of the older format (no reading inside the provider): bracket [d1, d0]
+    match parseProv prov, rhs.splitOn " " with
+    | some p, [t, res] =>
+      match parseInt t, parseOptInt d0, parseOptInt d1 with
+      | some t, some l0, some l1 => (d, loaderVerdict p l0 l0 l1 t res)
       | _, _, _ => (d, .bad "loader numbers")
     | _, _ => (d, .bad "loader args")
   | _ => (d, .bad "unknown op")
